@@ -295,3 +295,35 @@ def _nodes(n):
     acc = []
     walk(n, lambda x: acc.append(x))
     return acc
+
+
+def probe_masks(facts):
+    """every probe index of the reverse-purge hash map is reduced modulo the CURRENT table size: `& ((1 << lg_cur_size_) - 1)`.  A mask
+    built from lg_max_size_ (or any other size) probes outside the arrays while the table is still growing."""
+    from astu import single_assignment_locals
+    fs = fns_of(facts)
+    out = []
+    n = 0
+    for pat, fn in sorted(fs.items()):
+        if fn.get("rect") != "datasketches::reverse_purge_hash_map" or fn.get("body") is None:
+            continue
+        sa = single_assignment_locals(fn)
+        idx = [0]
+
+        def v(x):
+            nonlocal n
+            if x.get("k") == "Bin" and x.get("op") == "&":
+                for side in ("l", "r"):
+                    t = txt(x[side], sa).replace(" ", "")
+                    if t.startswith("((1<<") and t.endswith(")-1)"):
+                        key = "reverse_purge_hash_map::%s:probe-mask#%d" % (fn["name"], idx[0])
+                        idx[0] += 1
+                        n += 1
+                        if t == "((1<<lg_cur_size_)-1)":
+                            out.append(ob("fi.mask", key, x.get("loc", fn["pat"]), "discharged", "index & ((1 << lg_cur_size_) - 1)", fn["qname"]))
+                        else:
+                            out.append(ob("fi.mask", key, x.get("loc", fn["pat"]), "violated", "probe index is masked with `%s`, not with the current table size: while lg_cur_size_ < lg_max_size_ the probe sequence leaves the arrays (tracked items are not found: lower bound, estimate and upper bound read 0; out-of-bounds reads)" % t, fn["qname"]))
+        walk(fn["body"], v)
+    if n < 5:
+        out.append(ob("fi.mask", "anchor", "", "unrecognised", "only %d probe masks found" % n, ""))
+    return out
